@@ -114,7 +114,7 @@ def check_case(ctx, c):
     except Exception as e:
         r = e
     ctx.ran()
-    path = PathTap.accepted()
+    path = PathTap.accepted("absolute-time")
     feats = {"kind": kind, "pref": pref, "path": path, "zone_utc": c["zone"] == "UTC"}
     why, exp = None, None
     if not isinstance(r, datetime):
